@@ -66,7 +66,7 @@ func c19DocF(r *fw.Rand, hostile bool, first int) (string, []string) {
 				notes = append(notes, "same-name-people")
 			case 5: // surnames starting with digits, symbols, multi-byte letters
 				p := pick()
-				p.Surname = []string{"9lives", "(unknown)", "Østergaard", "'t Hart", "小龍"}[r.Intn(5)]
+				p.Surname = []string{"9lives", "(unknown)", "Østergaard", "'t Hart", "小龍", "İstanbul", "\u212Aelvin", "ǅemal", "ß-Straße", "\u0130", "Åberg", "élan"}[r.Intn(12)]
 				notes = append(notes, "odd-surname-initial")
 			case 6: // empty names
 				p := pick()
@@ -141,7 +141,7 @@ func init() {
 		Run:        c19Run,
 		Batch:      func(tier string, n int) int { return 1 },
 		Rule: "generated family graphs, half of them with hostile features (source and individual pointers with path separators or equal to fixed page names, people and places named like fixed pages or collapsing to the same file key, same-name people, surnames starting with digits/symbols/multi-byte letters, empty names) x visibility x page-group subsets, published into a recording FileWriter by the race-built worker. " +
-			"monitors: plain file names; no name written twice; every href / location.href target (fragment stripped, external links excluded) is '#' or a written file; determinism differential (3 repetitions, jobs 1/2/8/16, seeded schedule perturbation at the pub.* hooks, publish(A) before publish(B) vs B alone, the same document object re-published under a sequence of different options vs fresh decodes); race-detector logs; FAULT ENUMERATION: a writer that fails at the k-th file for EVERY k x jobs 1/2/8 (Publish must return an error, with jobs=1 no WriteFile call may follow the failing one, Publish must return); every 3rd case the real 'gedcom publish' into a scratch directory (nothing created outside the output directory; identical to the library output). non-trivial = site with at least 5 files and one internal link; distinct by text + options",
+			"monitors: plain file names; no name written twice; every href / location.href target (fragment stripped, external links excluded) is '#' or a written file; determinism differential (3 repetitions, jobs 1/2/8/16, seeded schedule perturbation at the pub.* hooks, publish(A) before publish(B) vs B alone, the same document object re-published under a sequence of different options vs fresh decodes); race-detector logs; FAULT ENUMERATION: a writer that fails at the k-th file for EVERY k (jobs 1; a rotating sample of k for jobs 2 and 8), once or from there on (Publish must return an error, with jobs=1 no WriteFile call may follow the failing one, Publish must return: two goroutine dumps in a row in which the publisher is parked and nothing of the library can run are a violation); every 3rd case the real 'gedcom publish' into a scratch directory (nothing created outside the output directory; identical to the library output). non-trivial = site with at least 5 files and one internal link; distinct by text + options",
 		Floors: func(a *fw.Agg, tier string) []string {
 			var f []string
 			for _, k := range []string{"sites", "links-checked", "determinism-comparisons", "fault-injections", "after-other-document", "cli-runs", "hostile-documents"} {
@@ -427,6 +427,54 @@ func c19Run(c *fw.Ctx, i int) {
 	if nFiles > 40 {
 		nFiles = 40
 	}
+	inject := func(jobs, k int, persistent bool) bool {
+		c.Count("fault-injections", 1)
+		mode := "once"
+		if persistent {
+			mode = "from-there-on"
+			c.Count("fault-injections-persistent", 1)
+		}
+		doc, _ := gedcom.NewDocumentFromString(text)
+		w := &recorder{failAt: int64(k), persistent: persistent}
+		done := make(chan error, 1)
+		go func() { done <- html.NewPublisher(doc, opts()).Publish(w, jobs) }()
+		var perr error
+		// Publish must return. Whether it is stuck is read off the goroutines,
+		// not off the clock: two dumps in a row in which the publisher is parked
+		// and nothing of the library can run.
+		blocked := 0
+		for waited := 0; ; waited++ {
+			select {
+			case perr = <-done:
+			case <-time.After(2 * time.Second):
+				if ok, dump := repoGoroutinesBlocked("html.(*Publisher).Publish"); ok {
+					blocked++
+					if blocked >= 2 {
+						c.Violation(fmt.Sprintf("fault:publish-does-not-return:%s:jobs=%s", mode, map[bool]string{true: "1", false: ">1"}[jobs == 1]), fmt.Sprintf("the file writer failed at file %d of %d (%s, jobs=%d) and Publish never returns: every goroutine of the library is parked\n%s", k, base.Calls, mode, jobs, clip(dump, 3000)), payload)
+						return false
+					}
+				} else {
+					blocked = 0
+				}
+				if waited > 90 {
+					c.Inconclusive("publish-with-failing-writer-watchdog")
+					return false
+				}
+				continue
+			}
+			break
+		}
+		if perr == nil {
+			c.Violation(fmt.Sprintf("fault:returned-nil:%s:jobs=%s", mode, map[bool]string{true: "1", false: ">1"}[jobs == 1]), fmt.Sprintf("the file writer failed at file %d of %d (%s, jobs=%d) but Publish returned nil", k, base.Calls, mode, jobs), payload)
+		}
+		if jobs == 1 {
+			files := w.all()
+			if len(files) > k {
+				c.Violation("fault:writes-after-failure:jobs=1", fmt.Sprintf("the writer failed at file %d but %d WriteFile calls were made (jobs=1)", k, len(files)), payload)
+			}
+		}
+		return true
+	}
 	for _, jobs := range []int{1, 2, 8} {
 		for k := 1; k <= nFiles; k++ {
 			// every k for jobs=1; for jobs 2 and 8 the first two, the last and a rotating sample
@@ -438,25 +486,20 @@ func c19Run(c *fw.Ctx, i int) {
 			if jobs != 1 && k > 2 && k != nFiles && k%step != i%step {
 				continue
 			}
-			c.Count("fault-injections", 1)
-			doc, _ := gedcom.NewDocumentFromString(text)
-			w := &recorder{failAt: int64(k)}
-			done := make(chan error, 1)
-			go func() { done <- html.NewPublisher(doc, opts()).Publish(w, jobs) }()
-			var perr error
-			select {
-			case perr = <-done:
-			case <-time.After(3 * time.Minute):
-				c.Inconclusive("publish-with-failing-writer-watchdog")
+			if !inject(jobs, k, false) {
 				return
 			}
-			if perr == nil {
-				c.Violation(fmt.Sprintf("fault:returned-nil:jobs=%s", map[bool]string{true: "1", false: ">1"}[jobs == 1]), fmt.Sprintf("the file writer failed at file %d of %d (jobs=%d) but Publish returned nil", k, base.Calls, jobs), payload)
-			}
-			if jobs == 1 {
-				files := w.all()
-				if len(files) > k {
-					c.Violation("fault:writes-after-failure:jobs=1", fmt.Sprintf("the writer failed at file %d but %d WriteFile calls were made (jobs=1)", k, len(files)), payload)
+		}
+		// a failure that does not go away (full disk, missing directory): from
+		// the first file, from one in the middle, from the last but one
+		ks := []int{1, nFiles/2 + 1, maxInt0(nFiles - 1)}
+		if !c.Thorough() {
+			ks = ks[(i+jobs)%3 : (i+jobs)%3+1] // quick: one of the three per job count, rotating
+		}
+		for _, k := range ks {
+			if k >= 1 && k <= nFiles {
+				if !inject(jobs, k, true) {
+					return
 				}
 			}
 		}
